@@ -477,6 +477,18 @@ def orc_fixed_t(case):
                 return f'the same eval_fixed call twice: {nm} differs: {_fmt(snap[nm])} then {_fmt(v)}'
             if not np.array_equal(held[nm], snap[nm], equal_nan=True):
                 return f'{nm} held from the first eval_fixed call changed when eval_fixed was called again'
+    if case.get('roundtrip'):
+        # the Result as the caller gets it back after saving and loading (dictionary form / HDF5 file): the same statistics
+        from rsatoolbox.inference.result import result_from_dict
+        if case['roundtrip'] == 'dict':
+            res = result_from_dict(res.to_dict())
+        else:
+            import os
+            import tempfile
+            from rsatoolbox.inference import load_results
+            with tempfile.TemporaryDirectory() as td:
+                res.save(os.path.join(td, 'res.hdf5'), file_type='hdf5')
+                res = load_results(os.path.join(td, 'res.hdf5'), file_type='hdf5')
     e = np.asarray(res.evaluations)
     if e.shape != (1, M, n):
         return f'evaluations have shape {e.shape}, expected (1, {M}, {n})'
@@ -1356,6 +1368,12 @@ def _sweeps(thorough):
                 k += 1
                 add('C06/fixed-t', orc_fixed_t, dict(seed=9000 + k, n_rdm=nr, n_cond=n_cond, M=M, method=method, noise=0.5),
                     'three-conditions' if n_cond == 3 else 'larger-sizes', 'eval_fixed')
+        # the Result after a round trip through its dictionary form / an HDF5 file: more subjects than conditions and vice versa
+        for n_cond, nr, M in ((4, 12, 2), (6, 4, 3), (5, 5, 2)):
+            for rt in ('dict', 'hdf5'):
+                k += 1
+                add('C06/fixed-t', orc_fixed_t, dict(seed=9000 + k, n_rdm=nr, n_cond=n_cond, M=M, method=('corr', 'cosine')[k % 2], noise=0.5,
+                                                     roundtrip=rt), 'result-saved-and-loaded', 'eval_fixed')
         for near in (1e-2, 1e-4):
             for method in ('cosine', 'corr'):
                 k += 1
